@@ -107,7 +107,12 @@ def scenario(rng, findings=False):
         i = rng.randint(1, ninst)
         if late[i] and rng.random() < 0.3:
             p = rng.choice(late[i])
-            steps.append({"op": "call", "i": i, "api": "add_listener", "v": p})
+            if rng.random() < 0.4 and len(late[i]) > 1:
+                # several listeners in ONE call, possibly an already attached one first
+                ps = rng.sample(late[i], rng.randint(2, min(3, len(late[i]))))
+                steps.append({"op": "call", "i": i, "api": "add_listener", "v": ps})
+            else:
+                steps.append({"op": "call", "i": i, "api": "add_listener", "v": p})
             if rng.random() < 0.5:
                 steps.append({"op": "call", "i": i, "api": "add_listener", "v": p})
         else:
@@ -132,11 +137,12 @@ def featurize(scn, res, v):
             seen[ln["i"]] = set(ln["provs"])
             ctor_async = any(cb["coro"] and cb["prov"] in seen[ln["i"]] and registered(d, cb) for cb in d["cbs"])
         if ln["e"] == "call" and ln["api"] == "add_listener":
-            if ln["v"] in seen.get(ln["i"], set()):
-                readded = True
-            seen.setdefault(ln["i"], set()).add(ln["v"])
-            if any(cb["coro"] and cb["prov"] == ln["v"] and registered(d, cb) for cb in d["cbs"]) and not ctor_async:
-                late_async = True
+            for pv in ln.get("vs") or [ln["v"]]:
+                if pv in seen.get(ln["i"], set()):
+                    readded = True
+                seen.setdefault(ln["i"], set()).add(pv)
+                if any(cb["coro"] and cb["prov"] == pv and registered(d, cb) for cb in d["cbs"]) and not ctor_async:
+                    late_async = True
     # the transition whose guards were being evaluated when the execution left the specification
     start = max((j for j, ln in enumerate(lines[:k + 1]) if ln["e"] == "call"), default=0)
     slot = lines[start].get("i", 1)
@@ -176,12 +182,11 @@ def run(pid, tier, seed, replay):
                               provs=("sm", "model", "l1"))
         fam.append(m)
     consts = {"NI": 1, "MaxCalls": 2, "MaxFails": 0, "MaxActs": 0}
-    ec.mc_run(chk, fam, consts, required=("MCBegin", "MCEnd", "MCAssign"), label="provider family")
-    hs = ec.hist_scenarios(chk, fam, consts, limit=800 if quick else 10000)
+    _cov, hs = ec.mc_run(chk, fam, consts, required=("MCBegin", "MCEnd", "MCAssign"), label="provider family", hist_limit=800 if quick else 10000)
     ec.run_validate(chk, hs, "providers: spec-behaviour replay", shards=4 if quick else 12, featurize=featurize)
     ec.run_validate(chk, [scenario(rng) for _ in range(1500 if quick else 25000)], "providers: random histories",
                     shards=4 if quick else 12, featurize=featurize)
-    ec.run_validate(chk, [scenario(rng, findings=True) for _ in range(60 if quick else 600)],
+    ec.run_validate(chk, [scenario(rng, findings=True) for _ in range(150 if quick else 1200)],
                     "providers: shapes of the known findings", shards=2 if quick else 6, featurize=featurize)
     chk.coverage["rule"] = ("callback names distributed over machine/model/2 constructor listeners/2 late listeners, 35% of names cloned "
                             "onto further providers (guards with their own valuation), repeated add_listener, 1-2 instances of one class "
